@@ -23,6 +23,8 @@ def parseEntry (s : String) : Entry :=
     else if t.startsWith "ep" then { e with emptyPart := bit t "ep" }
     else if t.startsWith "x" then { e with exist := bit t "x" }
     else if t.startsWith "kv" then { e with kvNil := bit t "kv" }
+    else if t.startsWith "kb" then { e with keyBad := bit t "kb" }
+    else if t.startsWith "fn" then { e with fromNeg := bit t "fn" }
     else if t.startsWith "k" then
       { e with keys := if t == "kN" then .nil else if t == "kE" then .empty else if t == "kF" then .firstEmpty else .ok }
     else if t.startsWith "iz" then { e with incZero := bit t "iz" }
@@ -34,6 +36,7 @@ def parseEntry (s : String) : Entry :=
                       else if t == "capO" then .ok else .absent }
     else if t.startsWith "lk" then { e with lockKeyEmpty := bit t "lk" }
     else if t.startsWith "li" then { e with lockIdEmpty := bit t "li" }
+    else if t == "t0" || t == "t1" then { e with telemetryOff := t == "t1" }
     else e) ({} : Entry)
 
 def parseShape (s : String) : Shape :=
@@ -58,14 +61,17 @@ def step (cfg : Cfg) (st : St) (line : String) : St × String :=
   match line.splitOn " " with
   | "case" :: _ => ({}, line)
   | ["end"] => (st, if st.leaked then "stop=hang lock=1" else "stop=ok lock=0")
-  | "req" :: rpc :: _ =>
+  | "req" :: rpc :: mode :: _ =>
     match findHandler cfg rpc with
     | none => (st, "no-handler")
     | some h =>
       let shapeTxt := match line.splitOn " | " with
         | _ :: s :: _ => s
         | _ => ""
-      let sh := parseShape shapeTxt
+      let sh0 := parseShape shapeTxt
+      -- mode `p`: the engine panics when it is entered
+      let inject := mode == "p"
+      let sh : Shape := if inject then { top := { sh0.top with engine := .panics }, entries := sh0.entries.map (fun e => { e with engine := .panics }) } else sh0
       let r := exec cfg h sh
       let engine := r.bodies > 0
       let cls := match r.out with
@@ -75,18 +81,27 @@ def step (cfg : Cfg) (st : St) (line : String) : St × String :=
           -- a stream handler that may stop after MaxResults does not look at the entries behind that point:
           -- once an earlier entry reached the engine, a later entry's rejection is only one possibility
           (if h.mayStop && engine then "bodyor " else "") ++ "err " ++ c.tag ++ " " ++ m
+        | .engineHazard _ => "body"       -- the engine is entered; what it does there is the recorded hazard
         | .response => if engine then "body" else "resp"
       let p := match r.out with
         | .nilNil => if h.okNil then 0 else 1
         | _ => 0
       let lock := if r.lock != 0 then 1 else 0
       let vig := if r.vigil != 0 then 1 else 0
-      let store := if engine then "any" else "same"
-      let bad := !r.out.defined || r.lock != 0 || r.vigil != 0
+      let hazard := match r.out with | .engineHazard _ => true | _ => false
+      let store := if engine || hazard then "any" else "same"
+      let rejectedAfterWrite := h.writes && (match r.out with | .grpcError _ _ => true | _ => false) && r.bodies != 0
+      -- with an injected engine panic `(nil, nil)` is what a recovering handler yields: only an escaping panic
+      -- or an unbalanced counter is a violation there
+      let undefinedOut := if inject then r.out == .panicEscapes else !r.out.defined
+      let bad := undefinedOut || r.lock != 0 || r.vigil != 0 || rejectedAfterWrite
       -- a handler that fails on the ordinary request too is reported once, not per shape
       let r0 := exec cfg h { top := {}, entries := [{}] }
       let always := !r0.out.defined || r0.lock != 0 || r0.vigil != 0
-      let flag := if bad then "\t#F:C26-" ++ rpc ++ "-" ++ (if always then "everyrequest" else blame (entriesOf h sh)) else ""
+      let tag := match r.out with
+        | .engineHazard t => t
+        | _ => if always then "everyrequest" else blame (entriesOf h sh)
+      let flag := if bad then "\t#F:C26-" ++ rpc ++ "-" ++ tag else ""
       ({ leaked := st.leaked || r.lock != 0 },
        s!"{cls} p={p} lock={lock} vig={vig} store={store} close=ok{flag}")
   | _ => (st, "bad-op")
